@@ -224,6 +224,11 @@ FAMILIES = {
         ("{% ifchanged %}{{ a.q | default: 1 }}{% endifchanged %}{% ifchanged %}{{ a.z | default: 1 }}{% endifchanged %}|", "a", "False"),
         ("{% cycle 'p', 'q', a.q %}{% cycle 'p', 'q', a.z %}{% cycle 'p', 'q', a.q %}|", "a", "False"),
         ("{% cycle x, 'q' %}{% cycle y, 'q' %}|", "xy", "not px"),
+        # arrays that hold nil and false, searched for a missing value
+        (IF % ("", "nils contains y") + IF % ("", "falses contains y"), "ym", "False"),
+        (IF % ("", "nils contains a.q") + IF % ("", "falses contains a.q") + IF % ("", "mix contains a.q"), "am", "False"),
+        ("{% unless mix contains y %}N{% else %}Y{% endunless %}{% for e in mix %}{% if mix contains a.b.c %}c{% endif %}{% endfor %}", "yam", "False"),
+        ("{{ mix | where: 'k', y | size }}{{ mix | map: 'k' | compact | size }}{% if hmix contains y %}H{% endif %}", "ym", "False"),
     ],
     "partial": [
         ("{% render 'p', v: x %}", "x", "not px"),
@@ -265,6 +270,11 @@ def mkdata(uses, px, py, pn, ps, pa, nx, i, vx, vy, vn, vs):
         d["xs"] = [6 + k for k in range(nx)]
     if "i" in uses:
         d["i"] = i
+    if "m" in uses:
+        d["mix"] = [None, False, vn, {"k": None}, {"k": False}]
+        d["hmix"] = {"k": None, "f": False}
+        d["nils"] = [None, vn]
+        d["falses"] = [False, vn]
     return d
 
 
@@ -352,14 +362,14 @@ _TX = (None, True, 1, "a")
 
 def c16_keyed(k: int, px: bool, py: bool, pa: int, nx: int, tx: int) -> bool:
     """
-    pre: 0 <= k <= 9 and 0 <= pa <= 3 and -1 <= nx <= 1 and 0 <= tx <= 3
+    pre: 0 <= k <= 13 and 0 <= pa <= 3 and -1 <= nx <= 1 and 0 <= tx <= 3
     post: _
     """
     # state keyed on str() of evaluated arguments (cycle groups, ifchanged): selector-only, the renders run on the
     # plain interpreter; the dimensions no template of this family reads are fixed
     if excluded("c16_keyed", locals()):
         return True
-    k, pa, nx, tx = cint(k, 0, 9), cint(pa, 0, 3), cint(nx, -1, 1), cint(tx, 0, 3)
+    k, pa, nx, tx = cint(k, 0, 13), cint(pa, 0, 3), cint(nx, -1, 1), cint(tx, 0, 3)
     px, py = cbool(px), cbool(py)
     r = untraced(lambda: run("keyed", k, px, py, False, False, pa, nx, 0, _TX[tx], 5, 1, ""))
     return finish(r["R1"] and r["R2"] and r["R3"])
